@@ -122,6 +122,45 @@ def write_replay(prop, idx, unit_name, d, res, extra=None):
     return path
 
 
+def do_replay(prop, path):
+    """re-run exactly the unit / harness named in a replay file against /repo's current tree and report whether the
+    named obligation still fails (exit 1 + VIOLATION) or is discharged now (exit 0)"""
+    try:
+        rp = json.load(open(path))
+    except Exception as e:
+        print("UNDECIDED cannot read replay file %s: %s" % (path, e))
+        return 2
+    wd = tempfile.mkdtemp(prefix="vf_replay_")
+    try:
+        if rp.get("engine", "").startswith("kani"):
+            r = kani_run.run_kani_unit(rp["unit"], wd, "thorough", prop)
+            hs = [h for h in r.get("harnesses", []) if h["name"] == rp.get("harness")]
+            if r.get("undecided") and not hs:
+                print("UNDECIDED %s" % r["undecided"])
+                return 2
+            if hs and hs[0]["status"] == "FAILED":
+                print("  still failing: kani %s::%s: %s" % (rp["unit"], rp["harness"], "; ".join(x["description"] for x in hs[0].get("failed", [])[:3])))
+                print("VIOLATION property=%s replay=%s%s" % (prop, path, "" if hs[0].get("counterexample") else " no-failing-input-found"))
+                return 1
+            print("OK replay: harness %s passes on the current tree" % rp.get("harness"))
+            return 0
+        out = run_verus_unit(rp["unit"], wd, "quick")
+        if "undecided" in out or out["res"].undecided:
+            print("UNDECIDED %s" % (out.get("undecided") or out["res"].undecided))
+            return 2
+        want = (rp.get("function"), rp.get("kind"), extract.rs.norm_ws(rp.get("failed_clause") or rp.get("source_text") or ""))
+        for d in out["res"].diags:
+            have = (d.func, d.kind, extract.rs.norm_ws((d.callee_clause or d.post_clause or d.text) or ""))
+            if have[0] == want[0] and have[1] == want[1] and (not want[2] or want[2] == have[2] or want[2] in extract.rs.norm_ws(d.text)):
+                print("  still failing: %s | %s" % (d.obligation_name(rp["unit"]), d.text.strip()))
+                print("VIOLATION property=%s replay=%s no-failing-input-found" % (prop, path))
+                return 1
+        print("OK replay: obligation %s is discharged on the current tree" % rp.get("obligation"))
+        return 0
+    finally:
+        shutil.rmtree(wd, ignore_errors=True)
+
+
 def main(argv):
     if len(argv) < 1:
         print(__doc__)
@@ -140,6 +179,8 @@ def main(argv):
         else:
             i += 1
     seed = int(os.environ.get("VERIF_SEED", "0") or 0)
+    if replay:
+        return do_replay(prop, replay)
     if prop not in registry.PROPS:
         print("UNDECIDED property=%s not claimed (see MANIFEST not_applicable)" % prop)
         return 2
